@@ -227,6 +227,21 @@ def r4(prog, rep):
         rep.ob("R4", "%s: cached distances/fine contour are reset after the index is stored" % end, bool(resets) and stored is not None and min(r.lineno for r in resets) > stored.lineno, g.site(blk), "", key="book/%s/reset" % end)
 
 
+def _odd_crossing_defs(mod, f):
+    """number of `<face>_outside` definitions of the form: False when there is no crossing, else
+    (number of crossings is odd) - written as a conditional expression or as if/else"""
+    n = 0
+    odd = K("intersects.shape[0] % 2 == 1")
+    for x in ast.walk(f.node):
+        if isinstance(x, ast.Assign) and isinstance(x.value, ast.IfExp) and mod.code(x.value) == K("False if intersects is None else intersects.shape[0] % 2 == 1"):
+            n += 1
+        if isinstance(x, ast.If) and mod.code(x.test) == K("intersects is None") and len(x.body) == 1 and len(x.orelse) == 1 \
+                and isinstance(x.body[0], ast.Assign) and isinstance(x.orelse[0], ast.Assign) and mod.code(x.body[0].targets[0]) == mod.code(x.orelse[0].targets[0]) \
+                and mod.code(x.body[0].value) == "False" and mod.code(x.orelse[0].value) == odd:
+            n += 1
+    return n
+
+
 def r5(prog, rep):
     f = prog.func(MESH, "MeshRegion.calcPenaltyMask")
     mod = f.module
@@ -234,7 +249,7 @@ def r5(prog, rep):
     facts = {
         "mask starts at 0 for every cell": K("self.penalty_mask=numpy.zeros((self.nx,self.ny))") in src,
         "the two y-faces of cell (i,j) are ylow[i,j] and ylow[i,j+1]": K("p1=Point2D(self.Rxy.ylow[i,j],self.Zxy.ylow[i,j])") in src and K("p2=Point2D(self.Rxy.ylow[i,j+1],self.Zxy.ylow[i,j+1])") in src,
-        "a face is outside iff the segment from the interior reference point crosses the closed wall an odd number of times": src.count("Falseifintersectsisnoneelseintersects.shape[0]%2==1".replace("none", "None")) == 2
+        "a face is outside iff the segment from the interior reference point crosses the closed wall an odd number of times": _odd_crossing_defs(mod, f) == 2
         and K("find_intersections(equilibrium.closed_wallarray,p0,p1)") in src and K("find_intersections(equilibrium.closed_wallarray,p0,p2)") in src,
         "both faces outside => 1": K("ifp1_outsideandp2_outside:self.penalty_mask[i,j]=1.0") in src,
         "exactly one outside => distance(outside face, wall crossing)/distance(p1,p2)": K("elifp1_outsideorp2_outside:") in src and K("self.penalty_mask[i,j]=calc_distance(p1ifp1_outsideelsep2,pi)/calc_distance(p1,p2)") in src
